@@ -6,6 +6,12 @@
 //! SPEC   = (files strategy seed epoch threads buffer threads2 buffer2 sort shuffle prefetch batch_limit limit_type pipeline)
 //! files  = list of files, each a list of line kinds (0 plain, 1 malformed json, 2 no "input" key, 3 json-encoded input)
 //! output = (A C D E F G H min_items (same_for_other_threads fingerprints_ok))
+//!
+//! Two further kinds of case (first field negative), for pipelines whose configuration is modelled in
+//! coq/theories/Pipeline_Model.v:
+//! direct: input = (-1 cfg input target (seed-hi seed-lo) file marks): `preprocessing(cfg)` applied to one item;
+//!         output = (0) constructor panics | (1 input target marks rep) | (2 rep) Err | (-777) the call panics
+//! cfg encoding: see Pipeline_Model.v_cfg
 use std::collections::hash_map::DefaultHasher;
 use std::collections::HashMap;
 use std::hash::{Hash, Hasher};
@@ -13,7 +19,8 @@ use text_utils::data::loading::{
     train_data_generator_from_jsonl, BatchLimitType, GenerationStrategy, MultiTrainDataGenerator,
 };
 use text_utils::data::postprocessing::PostprocessingFnConfig;
-use text_utils::data::preprocessing::{Part, PreprocessingFnConfig, SpellingCorruptionMode};
+use text_utils::data::preprocessing::{preprocessing, Part, PreprocessingFnConfig, SpellingCorruptionMode};
+use text_utils::unicode::Normalization;
 use text_utils::data::task::TrainTaskConfig;
 use text_utils::data::verif_hooks::{train_loader_batches, TrainLoaderArgs};
 use text_utils::data::{
@@ -317,8 +324,491 @@ fn ids_val(ids: &[usize]) -> Val {
     Val::L(ids.iter().map(|i| Val::u(*i)).collect())
 }
 
+
+// ---------------------------------------------------------------------------------------------
+// modelled pipeline configurations (Pipeline_Model.v)
+// ---------------------------------------------------------------------------------------------
+
+#[derive(Clone, Debug, PartialEq)]
+enum MCfg {
+    None,
+    Chain(Vec<MCfg>),
+    Clean(bool, bool),
+    Normalize(bool, u8, bool),
+    Overwrite(bool),
+    Switch(Vec<MCfg>, Vec<f64>),
+    NoWs(bool, bool),
+    FullWs(bool, bool),
+    WsCorrupt(bool, f64, f64, bool),
+    CharSub(usize, bool),
+    ByteSub(usize, bool),
+    Mark(String, String),
+    Prefix(bool, String),
+    Suffix(bool, String),
+}
+
+/// f64 on the wire: (0 m e) = m * 2^e canonical (-0.0 is sent as zero), (1 0 0) +inf, (2 0 0) NaN, (3 0 0) negative
+fn f64_val(x: f64) -> Val {
+    let t = |k: i64, m: i64, e: i64| Val::L(vec![Val::I(k), Val::I(m), Val::I(e)]);
+    if x.is_nan() {
+        t(2, 0, 0)
+    } else if x == f64::INFINITY {
+        t(1, 0, 0)
+    } else if x < 0.0 {
+        t(3, 0, 0)
+    } else {
+        let b = x.to_bits() & !(1u64 << 63);
+        let (e, f) = ((b >> 52) as i64, (b & ((1u64 << 52) - 1)) as i64);
+        if e == 0 {
+            t(0, f, -1074)
+        } else {
+            t(0, f + (1i64 << 52), e - 1075)
+        }
+    }
+}
+
+/// inverse of `f64_val`; `None` unless canonical. A negative value has no magnitude on the wire: -1.0.
+fn val_f64(v: &Val) -> Option<f64> {
+    let l = v.as_l()?;
+    if l.len() != 3 {
+        return None;
+    }
+    let (k, m, e) = (l[0].as_i()?, l[1].as_i()?, l[2].as_i()?);
+    match k {
+        1 if m == 0 && e == 0 => Some(f64::INFINITY),
+        2 if m == 0 && e == 0 => Some(f64::NAN),
+        3 if m == 0 && e == 0 => Some(-1.0),
+        0 => {
+            if (0..1i64 << 52).contains(&m) && e == -1074 {
+                Some(f64::from_bits(m as u64))
+            } else if (1i64 << 52..1i64 << 53).contains(&m) && (-1074..=971).contains(&e) {
+                Some(f64::from_bits((((e + 1075) as u64) << 52) | (m as u64 - (1u64 << 52))))
+            } else {
+                None
+            }
+        }
+        _ => None,
+    }
+}
+
+fn hl(x: u64) -> Val {
+    Val::L(vec![Val::I((x >> 32) as i64), Val::I((x & 0xffff_ffff) as i64)])
+}
+
+fn un_hl(v: &Val) -> Option<u64> {
+    let l = v.as_l()?;
+    if l.len() != 2 {
+        return None;
+    }
+    let (h, lo) = (l[0].as_i()?, l[1].as_i()?);
+    if !(0..1i64 << 32).contains(&h) || !(0..1i64 << 32).contains(&lo) {
+        return None;
+    }
+    Some(((h as u64) << 32) | lo as u64)
+}
+
+fn part_of(target: bool) -> Part {
+    if target {
+        Part::Target
+    } else {
+        Part::Input
+    }
+}
+
+fn norm_of(k: u8) -> Normalization {
+    match k {
+        1 => Normalization::NFC,
+        2 => Normalization::NFD,
+        3 => Normalization::NFKC,
+        _ => Normalization::NFKD,
+    }
+}
+
+impl MCfg {
+    fn to_val(&self) -> Val {
+        let t = |tag: i64, mut rest: Vec<Val>| {
+            let mut v = vec![Val::I(tag)];
+            v.append(&mut rest);
+            Val::L(v)
+        };
+        match self {
+            MCfg::None => t(0, vec![]),
+            MCfg::Chain(l) => t(1, vec![Val::L(l.iter().map(|c| c.to_val()).collect())]),
+            MCfg::Clean(p, g) => t(2, vec![Val::b(*p), Val::b(*g)]),
+            MCfg::Normalize(p, f, g) => t(3, vec![Val::b(*p), Val::u(*f as usize), Val::b(*g)]),
+            MCfg::Overwrite(p) => t(4, vec![Val::b(*p)]),
+            MCfg::Switch(l, ps) => t(
+                5,
+                vec![Val::L(l.iter().map(|c| c.to_val()).collect()), Val::L(ps.iter().map(|p| f64_val(*p)).collect())],
+            ),
+            MCfg::NoWs(p, g) => t(6, vec![Val::b(*p), Val::b(*g)]),
+            MCfg::FullWs(p, g) => t(7, vec![Val::b(*p), Val::b(*g)]),
+            MCfg::WsCorrupt(p, iw, dw, g) => t(8, vec![Val::b(*p), f64_val(*iw), f64_val(*dw), Val::b(*g)]),
+            MCfg::CharSub(n, g) => t(9, vec![Val::u(*n), Val::b(*g)]),
+            MCfg::ByteSub(n, g) => t(10, vec![Val::u(*n), Val::b(*g)]),
+            MCfg::Mark(k, v) => t(11, vec![Val::str(k), Val::str(v)]),
+            MCfg::Prefix(p, s) => t(12, vec![Val::b(*p), Val::str(s)]),
+            MCfg::Suffix(p, s) => t(13, vec![Val::b(*p), Val::str(s)]),
+        }
+    }
+
+    fn from_val(v: &Val, depth: usize) -> Option<MCfg> {
+        if depth > 6 {
+            return None;
+        }
+        let l = v.as_l()?;
+        let tag = l.first()?.as_i()?;
+        let a = |k: usize| l.get(k + 1);
+        let list = |v: &Val| -> Option<Vec<MCfg>> {
+            let l = v.as_l()?;
+            if l.len() > 6 {
+                return None;
+            }
+            l.iter().map(|c| MCfg::from_val(c, depth + 1)).collect()
+        };
+        let n = l.len() - 1;
+        Some(match (tag, n) {
+            (0, 0) => MCfg::None,
+            (1, 1) => MCfg::Chain(list(a(0)?)?),
+            (2, 2) => MCfg::Clean(a(0)?.as_bool()?, a(1)?.as_bool()?),
+            (3, 3) => {
+                let f = a(1)?.as_usize()?;
+                if !(1..=4).contains(&f) {
+                    return None;
+                }
+                MCfg::Normalize(a(0)?.as_bool()?, f as u8, a(2)?.as_bool()?)
+            }
+            (4, 1) => MCfg::Overwrite(a(0)?.as_bool()?),
+            (5, 2) => {
+                let ps = a(1)?.as_l()?;
+                if ps.len() > 8 {
+                    return None;
+                }
+                MCfg::Switch(list(a(0)?)?, ps.iter().map(val_f64).collect::<Option<Vec<f64>>>()?)
+            }
+            (6, 2) => MCfg::NoWs(a(0)?.as_bool()?, a(1)?.as_bool()?),
+            (7, 2) => MCfg::FullWs(a(0)?.as_bool()?, a(1)?.as_bool()?),
+            (8, 4) => MCfg::WsCorrupt(a(0)?.as_bool()?, val_f64(a(1)?)?, val_f64(a(2)?)?, a(3)?.as_bool()?),
+            (9, 2) => MCfg::CharSub(a(0)?.as_usize()?, a(1)?.as_bool()?),
+            (10, 2) => MCfg::ByteSub(a(0)?.as_usize()?, a(1)?.as_bool()?),
+            (11, 2) => MCfg::Mark(a(0)?.to_string_lossy()?, a(1)?.to_string_lossy()?),
+            (12, 2) => MCfg::Prefix(a(0)?.as_bool()?, a(1)?.to_string_lossy()?),
+            (13, 2) => MCfg::Suffix(a(0)?.as_bool()?, a(1)?.to_string_lossy()?),
+            _ => return None,
+        })
+    }
+
+    fn to_real(&self) -> PreprocessingFnConfig {
+        use PreprocessingFnConfig as P;
+        match self {
+            MCfg::None => P::None,
+            MCfg::Chain(l) => P::Chain(l.iter().map(|c| c.to_real()).collect()),
+            MCfg::Clean(p, g) => P::Clean(part_of(*p), *g),
+            MCfg::Normalize(p, f, g) => P::Normalize(part_of(*p), norm_of(*f), *g),
+            MCfg::Overwrite(p) => P::Overwrite(part_of(*p)),
+            MCfg::Switch(l, ps) => P::Switch(l.iter().map(|c| c.to_real()).collect(), ps.clone()),
+            MCfg::NoWs(p, g) => P::NoWhitespaces(part_of(*p), *g),
+            MCfg::FullWs(p, g) => P::FullWhitespaces(part_of(*p), *g),
+            MCfg::WsCorrupt(p, iw, dw, g) => P::WhitespaceCorruption(part_of(*p), *iw, *dw, *g),
+            MCfg::CharSub(n, g) => P::CharSubstring(*n, *g),
+            MCfg::ByteSub(n, g) => P::ByteSubstring(*n, *g),
+            MCfg::Mark(k, v) => P::Mark(k.clone(), v.clone()),
+            MCfg::Prefix(p, s) => P::Prefix(part_of(*p), s.clone()),
+            MCfg::Suffix(p, s) => P::Suffix(part_of(*p), s.clone()),
+        }
+    }
+
+    fn nodes(&self) -> usize {
+        match self {
+            MCfg::Chain(l) | MCfg::Switch(l, _) => 1 + l.iter().map(|c| c.nodes()).sum::<usize>(),
+            _ => 1,
+        }
+    }
+
+    fn names(&self, out: &mut Vec<&'static str>) {
+        let n = match self {
+            MCfg::None => "none",
+            MCfg::Chain(l) => {
+                l.iter().for_each(|c| c.names(out));
+                "chain"
+            }
+            MCfg::Clean(..) => "clean",
+            MCfg::Normalize(..) => "normalize",
+            MCfg::Overwrite(..) => "overwrite",
+            MCfg::Switch(l, _) => {
+                l.iter().for_each(|c| c.names(out));
+                "switch"
+            }
+            MCfg::NoWs(..) => "nows",
+            MCfg::FullWs(..) => "fullws",
+            MCfg::WsCorrupt(..) => "wscorrupt",
+            MCfg::CharSub(..) => "charsub",
+            MCfg::ByteSub(..) => "bytesub",
+            MCfg::Mark(..) => "mark",
+            MCfg::Prefix(..) => "prefix",
+            MCfg::Suffix(..) => "suffix",
+        };
+        if !out.contains(&n) {
+            out.push(n);
+        }
+    }
+}
+
+fn gen_prob(rng: &mut Rng) -> f64 {
+    match rng.below(14) {
+        0 => 0.0,
+        1 => 1.0,
+        2 => 0.5,
+        3 => 0.3,
+        4 => 0.4,
+        5 => 0.1,
+        6 => 1e-9,
+        7 => 2.0,
+        8 => -1.0,
+        9 => *rng.pick(&[f64::NAN, f64::INFINITY, 5e-324, 1.0 - f64::EPSILON / 2.0]),
+        // an arbitrary binary64 value in [0, 1)
+        10 | 11 => (rng.next_u64() >> 11) as f64 / (1u64 << 53) as f64,
+        // a multiple of 2^-53 just around one of the values the generator will draw is as good as any; small values
+        12 => (rng.next_u64() >> 40) as f64 / (1u64 << 53) as f64,
+        _ => 0.25,
+    }
+}
+
+fn gen_switch_probs(rng: &mut Rng, n: usize) -> Vec<f64> {
+    let mut ps: Vec<f64> = match (rng.below(10), n) {
+        (0..=3, _) => {
+            // random positive weights normalised (the f64 sum is then 1 within a few ulps)
+            let w: Vec<f64> = (0..n).map(|_| rng.range(1, 9) as f64).collect();
+            let t: f64 = w.iter().sum();
+            w.iter().map(|x| x / t).collect()
+        }
+        (4, 4) => vec![0.3, 0.2, 0.3, 0.2],
+        (4 | 5, _) => {
+            // one alternative takes everything, the others have probability 0
+            let k = rng.below(n);
+            (0..n).map(|i| if i == k { 1.0 } else { 0.0 }).collect()
+        }
+        (6, _) => (0..n).map(|_| 1.0 / n as f64).collect(),
+        (7, _) => {
+            // sums near the tolerance of the assertion: 1 +- 1e-5 (+- a little)
+            let d = *rng.pick(&[1e-5, 0.99999e-5, 1.00001e-5, 9e-6, 1.1e-5, 1e-7]);
+            let s = if rng.chance(1, 2) { 1.0 + d } else { 1.0 - d };
+            let mut v: Vec<f64> = (0..n).map(|_| s / n as f64).collect();
+            if n == 1 {
+                v[0] = s;
+            }
+            v
+        }
+        // arbitrary values (a negative one has no magnitude on the wire and is outside the model: 0 instead)
+        (8, _) => (0..n).map(|_| gen_prob(rng)).map(|p| if p < 0.0 { 0.0 } else { p }).collect(),
+        _ => (0..n).map(|_| 1.0 / n as f64).collect(),
+    };
+    // now and then the wrong number of probabilities
+    if rng.chance(1, 25) {
+        if rng.chance(1, 2) {
+            ps.pop();
+        } else {
+            ps.push(0.0);
+        }
+    }
+    ps
+}
+
+const PIECES: &[&str] = &[
+    "a", "b", "c", "x", "ab", " ", " ", " ", "  ", "\t", "\n", "\u{a0}", "\u{3000}", "é", "e\u{301}", "ﬁ", "ä", "中", "😀",
+    "🇩", "🇪", "\u{1100}", "\u{1161}", "\u{301}", "¨", "Å", "ｶ", "\u{200b}", ".", "\r\n", "²",
+];
+
+fn gen_text(rng: &mut Rng, max: usize) -> String {
+    let n = match rng.below(10) {
+        0 => 0,
+        1 => 1,
+        _ => rng.range(2, max),
+    };
+    let ascii_only = rng.chance(1, 3);
+    let mut s = String::new();
+    for _ in 0..n {
+        if ascii_only {
+            s.push_str(*rng.pick::<&str>(&["a", "b", "c", " ", " ", "xy"]));
+        } else {
+            s.push_str(*rng.pick::<&str>(PIECES));
+        }
+    }
+    s
+}
+
+fn gen_leaf(rng: &mut Rng) -> MCfg {
+    let p = rng.chance(1, 3);
+    let g = rng.chance(1, 2);
+    match rng.below(15) {
+        0 => MCfg::None,
+        1 => MCfg::Clean(p, g),
+        2 => MCfg::Normalize(p, rng.range(1, 4) as u8, g),
+        3 => MCfg::Overwrite(p),
+        4 => MCfg::NoWs(p, g),
+        5 => MCfg::FullWs(p, g),
+        6 | 7 | 8 => {
+            let (mut iw, dw) = (gen_prob(rng), gen_prob(rng));
+            // mostly acceptable configurations
+            if !(iw > 0.0) && !(dw > 0.0) && rng.chance(3, 4) {
+                iw = 0.5;
+            }
+            MCfg::WsCorrupt(p, iw, dw, g)
+        }
+        9 => MCfg::CharSub(if rng.chance(1, 8) { *rng.pick(&[0, 1000]) } else { rng.range(1, 6) }, g),
+        10 => MCfg::ByteSub(if rng.chance(1, 8) { *rng.pick(&[0, 1, 1000]) } else { rng.range(2, 9) }, g),
+        11 => MCfg::Mark(rng.pick(&["k", "m", ""]).to_string(), rng.pick(&["v", "w", "é"]).to_string()),
+        12 => MCfg::Prefix(p, rng.pick(&["", "p", "> ", " ", "é "]).to_string()),
+        13 => MCfg::Suffix(p, rng.pick(&["", "s", " <", " ", "\u{301}"]).to_string()),
+        _ => MCfg::Clean(false, g),
+    }
+}
+
+fn gen_cfg(rng: &mut Rng, depth: usize) -> MCfg {
+    if depth == 0 || rng.chance(2, 5) {
+        return gen_leaf(rng);
+    }
+    if rng.chance(1, 2) {
+        let n = rng.below(4);
+        MCfg::Chain((0..n).map(|_| gen_cfg(rng, depth - 1)).collect())
+    } else {
+        let n = if rng.chance(1, 20) { 0 } else { rng.range(1, 4) };
+        let l: Vec<MCfg> = (0..n).map(|_| gen_cfg(rng, depth - 1)).collect();
+        let ps = gen_switch_probs(rng, n.max(1));
+        let ps = if n == 0 { vec![] } else { ps };
+        MCfg::Switch(l, ps)
+    }
+}
+
+fn marks_val(m: &HashMap<String, String>) -> Val {
+    let mut kv: Vec<(&String, &String)> = m.iter().collect();
+    kv.sort_by(|a, b| a.0.chars().cmp(b.0.chars()));
+    Val::L(kv.iter().map(|(k, v)| Val::L(vec![Val::str(k), Val::str(v)])).collect())
+}
+
+fn val_marks(v: &Val) -> Option<HashMap<String, String>> {
+    let mut m = HashMap::new();
+    for kv in v.as_l()? {
+        let kv = kv.as_l()?;
+        if kv.len() != 2 {
+            return None;
+        }
+        // the model keeps an association list without duplicate keys
+        if m.insert(kv[0].to_string_lossy()?, kv[1].to_string_lossy()?).is_some() {
+            return None;
+        }
+    }
+    Some(m)
+}
+
+/// one application of `preprocessing(cfg)`: (1 input target marks) | (2) | (-777)
+fn apply_once(f: &text_utils::data::preprocessing::PreprocessingFn, input: &str, target: &str, info: &TextDataInfo) -> Vec<Val> {
+    let data = text_utils::data::TrainData::new(input.to_string(), Some(target.to_string()));
+    let info = info.clone();
+    match std::panic::catch_unwind(std::panic::AssertUnwindSafe(|| f(data, info))) {
+        Err(_) => vec![Val::I(-777)],
+        Ok(Err(_)) => vec![Val::I(2)],
+        Ok(Ok((d, i))) => vec![Val::I(1), Val::str(d.verif_input()), Val::str(d.verif_target()), marks_val(&i.marks)],
+    }
+}
+
+fn direct_gen(rng: &mut Rng) -> Val {
+    let cfg = gen_cfg(rng, 3);
+    let input = gen_text(rng, 14);
+    let target = match rng.below(6) {
+        0 => gen_text(rng, 14),
+        1 => text_utils::text::clean(&input, true),
+        2 => text_utils::whitespace::remove(&input, true),
+        _ => input.clone(),
+    };
+    let seed = if rng.chance(1, 6) { rng.next_u64() } else { rng.below(5000) as u64 };
+    let mut marks = HashMap::new();
+    if rng.chance(1, 6) {
+        marks.insert("k".to_string(), "old".to_string());
+    }
+    if rng.chance(1, 10) {
+        marks.insert("z".to_string(), "y".to_string());
+    }
+    Val::L(vec![
+        Val::I(-1),
+        cfg.to_val(),
+        Val::str(&input),
+        Val::str(&target),
+        hl(seed),
+        Val::u(rng.below(3)),
+        marks_val(&marks),
+    ])
+}
+
+fn direct_run(input: &Val) -> Option<(Val, Vec<String>)> {
+    let l = input.as_l()?;
+    if l.len() != 7 {
+        return None;
+    }
+    let cfg = MCfg::from_val(&l[1], 0)?;
+    // a negative switch probability has no magnitude on the wire and is outside the model
+    fn neg_switch(c: &MCfg) -> bool {
+        match c {
+            MCfg::Chain(l) => l.iter().any(neg_switch),
+            MCfg::Switch(l, ps) => ps.iter().any(|p| *p < 0.0) || l.iter().any(neg_switch),
+            _ => false,
+        }
+    }
+    if neg_switch(&cfg) {
+        return None;
+    }
+    let inp = l[2].to_string_lossy()?;
+    let tgt = l[3].to_string_lossy()?;
+    if inp.chars().count() > 400 || tgt.chars().count() > 400 {
+        return None;
+    }
+    let info = TextDataInfo { seed: un_hl(&l[4])?, file_idx: l[5].as_usize()?, marks: val_marks(&l[6])? };
+    let real = cfg.to_real();
+    let mut tags = vec!["direct".to_string()];
+    let mut names = vec![];
+    cfg.names(&mut names);
+    tags.extend(names.iter().map(|n| n.to_string()));
+    let f = match std::panic::catch_unwind(move || preprocessing(real)) {
+        Ok(f) => f,
+        Err(_) => {
+            tags.push("rejected".into());
+            return Some((Val::L(vec![Val::I(0)]), tags));
+        }
+    };
+    let first = apply_once(&f, &inp, &tgt, &info);
+    let second = apply_once(&f, &inp, &tgt, &info);
+    let third = std::thread::scope(|s| s.spawn(|| apply_once(&f, &inp, &tgt, &info)).join().ok());
+    let rep = second == first && third.as_ref() == Some(&first);
+    let mut out = first;
+    match out[0] {
+        Val::I(1) => {
+            tags.push("ok".into());
+            if cfg.nodes() >= 2 {
+                tags.push("nt".into());
+            }
+            out.push(Val::b(rep));
+        }
+        Val::I(2) => {
+            tags.push("err".into());
+            out.push(Val::b(rep));
+        }
+        _ => {
+            tags.push("panic".into());
+            if !rep {
+                // a panic that is not reproducible is not the value the model predicts
+                out = vec![Val::I(-779)];
+            }
+        }
+    }
+    Some((Val::L(out), tags))
+}
+
 impl Prop for C08 {
-    fn gen(&mut self, rng: &mut Rng, _tier: Tier, _i: usize, _n: usize) -> Val {
+    fn gen(&mut self, rng: &mut Rng, _tier: Tier, i: usize, _n: usize) -> Val {
+        // one scenario with an oracle table in ten cases; the others are cases over modelled pipelines
+        if i % 10 != 0 {
+            return direct_gen(rng);
+        }
         let nfiles = rng.range(1, 3);
         let strategy = rng.below(3) as i64;
         let pipeline = rng.below(4) as i64;
@@ -384,6 +874,9 @@ impl Prop for C08 {
 
     fn canon(&mut self, input: &Val) -> Option<Val> {
         let l = input.as_l()?;
+        if l.first().and_then(|k| k.as_i()) == Some(-1) {
+            return Some(input.clone());
+        }
         if l.len() != 11 {
             return None;
         }
@@ -408,6 +901,9 @@ impl Prop for C08 {
 
     fn run(&mut self, input: &Val) -> Option<(Val, Vec<String>)> {
         let l = input.as_l()?;
+        if l.first().and_then(|k| k.as_i()) == Some(-1) {
+            return direct_run(input);
+        }
         if l.len() != 11 {
             return None;
         }
